@@ -60,6 +60,14 @@ WHITELIST = [
          chain=dict(var="num_points", inputs=["num_points"])),
     dict(cls=None, fn="ComputeParallelogramPrediction", suffix="_component",
          slice=dict(first_decl="in_data_next_off", count=5)),
+    dict(cls=None, fn="SelectPredictionMethod", params=["int", "const draco::EncoderOptions &", "const draco::PointCloudEncoder *"],
+         opaque=True),
+    dict(cls="MeshEdgebreakerEncoder", fn="InitializeEncoder", suffix="_method", opaque=True,
+         slice=dict(scope="body", first_decl="selected_edgebreaker_method", count=2)),
+    dict(cls="ExpertEncoder", fn="EncodeMeshToBuffer", suffix="_method", opaque=True,
+         slice=dict(scope="body", first_decl="encoding_method", count=2)),
+    dict(cls="DynamicIntegerPointsKdTreeDecoder", fn="GetAxis", targs=[6], suffix="_branch",
+         chain=dict(var="num_remaining_points", inputs=[])),
     dict(cls="OctahedronToolBox", fn="IsInDiamond"),
     dict(cls="OctahedronToolBox", fn="InvertDiamond"),
     dict(cls="OctahedronToolBox", fn="ModMax"),
@@ -105,6 +113,10 @@ TU_TEXT = """\
 #include "draco/core/varint_encoding.h"
 #include "draco/core/varint_decoding.h"
 #include "draco/core/draco_types.cc"
+#include "draco/compression/attributes/prediction_schemes/prediction_scheme_encoder_factory.cc"
+#include "draco/compression/mesh/mesh_edgebreaker_encoder.cc"
+#include "draco/compression/expert_encode.cc"
+#include "draco/compression/point_cloud/algorithms/dynamic_integer_points_kd_tree_decoder.h"
 #include "draco/compression/attributes/prediction_schemes/mesh_prediction_scheme_parallelogram_shared.h"
 #include "draco/mesh/corner_table.h"
 #include "draco/compression/mesh/mesh_sequential_decoder.cc"
@@ -121,6 +133,7 @@ template int32_t ConvertSymbolToSignedInt<uint32_t>(uint32_t);
 template int32_t AddAsUnsigned<int32_t>(int32_t, int32_t);
 template bool ComputeParallelogramPrediction<CornerTable, int32_t>(int, const CornerIndex, const CornerTable *,
     const std::vector<int32_t> &, const int32_t *, int, int32_t *);
+template class DynamicIntegerPointsKdTreeDecoder<6>;
 template class RAnsSymbolEncoder<12>;
 template class RAnsDecoder<12>;
 template bool DecodeVarint<uint32_t>(uint32_t *, DecoderBuffer *);
@@ -336,9 +349,45 @@ class Index:
         global _ALIAS_RESOLVER, _ENUM_RESOLVER
         _ALIAS_RESOLVER = self.resolve_alias
         self.enums = {}
+        self.enum_values = {}
         for i, n in self.byid.items():
+            if n.get("kind") == "EnumDecl" and any(c.get("kind") == "EnumConstantDecl" for c in n.get("inner", [])):
+                cur, neg, okv = -1, False, True
+                for c in n.get("inner", []):
+                    if c.get("kind") != "EnumConstantDecl":
+                        continue
+                    vals = []
+
+                    def findv(x):
+                        if x.get("kind") == "ConstantExpr" and "value" in x:
+                            vals.append(x["value"])
+                            return
+                        for y in x.get("inner", []) or []:
+                            if isinstance(y, dict) and not vals:
+                                findv(y)
+                    for y in c.get("inner", []) or []:
+                        if isinstance(y, dict):
+                            findv(y)
+                    if any(isinstance(y, dict) and y.get("kind") for y in c.get("inner", []) or []) and not vals:
+                        okv = False
+                    cur = int(vals[0]) if vals else cur + 1
+                    neg = neg or cur < 0
+                    if okv:
+                        self.enum_values[c["id"]] = cur
+                n["_neg"] = neg
             if n.get("kind") == "EnumDecl" and n.get("name") and any(c.get("kind") == "EnumConstantDecl" for c in n.get("inner", [])):
                 ut = n.get("fixedUnderlyingType")
+                par = self.parent.get(i)
+                keys = [n["name"]]
+                if par is not None and par.get("kind") in ("CXXRecordDecl", "ClassTemplateSpecializationDecl") and par.get("name"):
+                    keys = [par["name"] + "::" + n["name"]]
+                if not ut and n.get("_neg"):
+                    for kk in keys:
+                        self.enums.setdefault(kk, []).append("int")
+                    continue
+                for kk in keys:
+                    self.enums.setdefault(kk, []).append((ut.get("desugaredQualType") or ut["qualType"]) if ut else "unsigned int")
+                continue
                 # an unscoped enum without fixed underlying type: `unsigned int` when no enumerator is negative (gcc/clang)
                 self.enums.setdefault(n["name"], []).append((ut.get("desugaredQualType") or ut["qualType"]) if ut else "unsigned int")
         _ENUM_RESOLVER = self.resolve_enum
@@ -652,6 +701,7 @@ class Translator:
             ft = FuncTranslator(self, decl, pointwise=bool(w.get("pointwise")), suffix=w.get("suffix", ""),
                                 lazy_struct=part)
             ft.loop_fuel = w.get("loop_fuel")
+            ft.opaque = bool(w.get("opaque"))
             if w.get("slice"):
                 ft.select_slice(w["slice"])
             if w.get("chain"):
@@ -662,6 +712,18 @@ class Translator:
         self.done[key] = info
         self.order.append(key)
         return info
+
+    def node_text(self, node):
+        r = node.get("range", {})
+        b, e = r.get("begin", {}), r.get("end", {})
+        b = b.get("expansionLoc", b)
+        e = e.get("expansionLoc", e)
+        f = b.get("_file")
+        if f is None or "offset" not in b or "offset" not in e or e.get("_file") != f:
+            raise XlateError("no source range for an expression")
+        if f not in self.src_cache:
+            self.src_cache[f] = open(f, "rb").read()
+        return " ".join(self.src_cache[f][b["offset"]: e["offset"] + e.get("tokLen", 0)].decode(errors="replace").split())
 
     def trait_value(self, node, func_decl):
         """`std::is_unsigned<T>::value` and friends inside an instantiated template: the expression's source text
@@ -712,6 +774,10 @@ class FuncTranslator:
         self.tr, self.ix, self.decl, self.pointwise = tr, tr.ix, decl, pointwise
         self.suffix = suffix
         self.loop_fuel = None
+        self.opaque = False
+        self.opaque_inputs = {}
+        self.ptr_locals = set()
+        self.local_keys = {}
         self.slice = None
         self.chain = False
         self.abs_inputs = {}
@@ -789,6 +855,8 @@ class FuncTranslator:
         self.body = wrapper
         self.parms = []
         self.uses_this = _contains(wrapper, lambda n: n.get("kind") == "CXXThisExpr")
+        if self.opaque:
+            self.uses_this = False      # the object is only reached through calls, which are inputs
         if self.uses_this and self.struct_cls is None:
             self.struct_cls = self.tr.struct_of(self.cls)
         self.slice_ret = self.ret_ct
@@ -971,6 +1039,9 @@ class FuncTranslator:
         self.log_base = None
         self.pre = []
         self.no_effect = 0
+        self.opaque_inputs = {}
+        self.local_keys = {}
+        self.ptr_locals = set()
         self.array_params = self._array_params()
         info.nparams = len(self.parms)
         self.fueled = _contains(self.body, lambda n: n.get("kind") == "CallExpr" and self._callee_id(n) == self.decl["id"])
@@ -1036,6 +1107,8 @@ class FuncTranslator:
             elif t.kind == "ptr" and t.to.kind == "class" and t.to.name.split("::")[-1] == "EncoderBuffer":
                 self.sink_params.add(p["id"])
                 self.has_sink = True
+            elif self.opaque and t.kind in ("ptr", "class", "other"):
+                pass            # objects are only reached through calls, which are inputs in this mode
             elif t.kind == "ptr" and t.to.kind == "class":
                 sc = self.ix.find_class_by_type(t.to.name)
                 if sc["id"] not in self.tr.structs:
@@ -1051,6 +1124,8 @@ class FuncTranslator:
                     ctx.types[loc] = ft
                     ctx.names[loc] = self._alloc(nm + "_" + f)
                     ctx.vals[loc] = f"{ln}.{lean_ident(f)}"
+            elif self.opaque:
+                pass            # objects are only reached through calls, which are inputs in this mode
             else:
                 self.fail(f"parameter `{nm}` of type {t!r} is not supported")
         if self.chain:
@@ -2056,6 +2131,18 @@ class FuncTranslator:
                 self.fail("reference without initialiser", d)
             ctx.alias[d["id"]] = self.lvalue(inner[0], ctx)
             return
+        if self.opaque and t.kind == "ptr":
+            if len(inner) != 1 or not (t.const or "*const" in t0.replace(" ", "")):
+                self.fail("opaque mode: pointer local that is not `T *const p = call`", d)
+            i0 = _strip_casts(inner[0])
+            if i0.get("kind") not in ("CallExpr", "CXXMemberCallExpr"):
+                self.fail("opaque mode: pointer local that is not initialised by a call", d)
+            self.ptr_locals.add(d["id"])
+            self.local_keys[d["id"]] = self.opaque_key(i0)
+            return
+        if self.opaque and t.kind in ("int", "bool") and t.const and len(inner) == 1 and \
+                _strip_casts(inner[0]).get("kind") in ("CallExpr", "CXXMemberCallExpr"):
+            self.local_keys[d["id"]] = self.opaque_key(_strip_casts(inner[0]))
         if self._is_bptr_type(t) and not self.pointwise:
             if len(inner) != 1:
                 self.fail("byte pointer without initialiser", d)
@@ -2187,9 +2274,59 @@ class FuncTranslator:
             return f"(cShr {a} {b})"
         self.fail(f"binary operator `{op}`", node)
 
+    def opaque_key(self, n):
+        """identity of an opaque call: its source text with every local variable replaced by the identity of its (constant)
+        initialiser — so that equal keys mean equal calls with equal arguments"""
+        text = self.tr.node_text(n)
+        subst = {}
+
+        def walk(x):
+            if x.get("kind") == "DeclRefExpr" and x["referencedDecl"].get("kind") == "VarDecl":
+                rid = x["referencedDecl"]["id"]
+                if rid in self.local_keys:
+                    subst[x["referencedDecl"]["name"]] = self.local_keys[rid]
+                elif x.get("nonOdrUseReason") != "constant" and rid not in self.ix.byid:
+                    self.fail("opaque call whose argument is a local that is not a constant", x)
+                elif rid in self.ix.byid and self.ix.parent.get(rid) is not None and \
+                        self.ix.parent[rid].get("kind") == "DeclStmt":
+                    self.fail(f"opaque call whose argument `{x['referencedDecl'].get('name')}` is a mutable local", x)
+            for c in x.get("inner", []) or []:
+                if isinstance(c, dict):
+                    walk(c)
+        walk(n)
+        for nm, kk in subst.items():
+            text = re.sub(r"\b" + re.escape(nm) + r"\b", "⟨" + kk + "⟩", text)
+        return text
+
+    def opaque_input(self, text, t, node, shown=None):
+        """opaque mode: a call (assumed to be a pure getter) is an input of the translated function, identified by its
+        source text — two occurrences of the same text are the same input"""
+        if t.kind not in ("int", "bool"):
+            self.fail(f"opaque call `{text}` of type {t!r}", node)
+        if text not in self.opaque_inputs:
+            nm = re.sub(r"_+", "_", re.sub(r"\W", "_", re.sub(r'"([^"]*)"', r"\1", shown or text))).strip("_")
+            ln = self._alloc(nm[:60])
+            self.opaque_inputs[text] = (ln, CT(t.kind, t.signed, t.bits))
+            self.info.params.append((ln, t.lean(), ("opaque", text)))
+        return self.opaque_inputs[text]
+
     def ev(self, n, ctx):
         """-> (Lean text, CT) of a pure expression"""
         k = n.get("kind")
+        if self.opaque:
+            if k in ("CallExpr", "CXXMemberCallExpr", "CXXOperatorCallExpr"):
+                return self.opaque_input(self.opaque_key(n), node_type(n), n, self.tr.node_text(n))
+            if k == "ImplicitCastExpr" and n.get("castKind") == "PointerToBoolean":
+                b = _strip(n["inner"][0])
+                if b.get("kind") == "DeclRefExpr" and b["referencedDecl"]["id"] in self.local_keys:
+                    return self.opaque_input("(" + self.local_keys[b["referencedDecl"]["id"]] + ") != nullptr", CT("bool"), n,
+                                             b["referencedDecl"]["name"] + "_nonnull")
+                self.fail("pointer used as a condition", n)
+            if k == "DeclRefExpr" and n["referencedDecl"].get("kind") == "EnumConstantDecl":
+                v = self.ix.enum_values.get(n["referencedDecl"]["id"])
+                if v is None:
+                    self.fail("enumerator without a known value", n)
+                return (str(v) if v >= 0 else f"({v})"), node_type(n)
         if k == "ConstantExpr" and "value" in n and node_type(n).kind == "int" and re.fullmatch(r"-?\d+", str(n["value"])):
             v = int(n["value"])
             return (str(v) if v >= 0 else f"({v})"), node_type(n)
